@@ -9,4 +9,8 @@ TokTimesThorough == TokTimesQuick \cup {<<0, 1>>, <<9, 1>>, <<250, 125>>, <<1000
 \* frame shifts in ms (0 = times are already frames)
 ShiftsQuick == {0, 10, 25, 125}
 ShiftsThorough == {0, 1, 10, 20, 25, 125, 1000}
+\* a sub-millisecond universe: base unit = 1/8 ms (raw audio at 8 kHz has frame_shift_ms = 1/8); start times and
+\* durations that are not whole milliseconds; the driver divides every number by 8 (records marked upm = 8)
+TokTimesSubMs == {<<-1, 0>>, <<0, 0>>, <<19, 9>>, <<20, 3>>, <<4, 0>>, <<83, 17>>, <<1003, 5>>}
+ShiftsSubMs == {1, 2}
 =============================================================================
